@@ -904,6 +904,21 @@ func YieldObj(site string, addr uintptr) {
 	block(pending{kind: opYield, site: site, obj: addr})
 }
 
+// ChanLen is len(ch) of the code under test: a scheduling point that reads the channel's state (it
+// conflicts with sends, receives and close on the same channel, so both orders are explored).
+//
+//go:norace
+func ChanLen(site string, ch interface{}) int {
+	v := reflect.ValueOf(ch)
+	if controlled && v.IsValid() && !v.IsNil() {
+		block(pending{kind: opYield, site: site, obj: chanPtr(v), readOnly: true})
+	}
+	if !v.IsValid() {
+		return 0
+	}
+	return v.Len()
+}
+
 // WaitUntil blocks the calling thread until pred() is true.  pred is evaluated by the scheduler
 // (by whichever thread holds the baton) and must only read state owned by the harness.
 //
